@@ -1,8 +1,9 @@
 --------------------------- MODULE WorkspaceFiles ---------------------------
 (***************************************************************************)
 (* Generator layer: workspaces of 1..4 journal files of grammar G          *)
-(* connected by include directives (diamond-free trees; diamonds and       *)
-(* cycles are C10/C11's business), whose files share accounts, payees,     *)
+(* connected by include directives (trees, and two shapes in which a file  *)
+(* is reached along two paths; cycles are C10/C11's business), whose files *)
+(* share accounts, payees,                                                 *)
 (* tags and commodities.  For every file i the module knows Tree(i), the   *)
 (* files reachable from i, and for every such tree the aggregates the      *)
 (* hover, reference, completion and symbol features must agree with:       *)
@@ -37,7 +38,10 @@ Shapes == <<
   [n |-> 4, inc |-> << <<2, 3>>, <<4>>, <<>>, <<>> >>],
   [n |-> 4, inc |-> << <<2>>, <<3>>, <<4>>, <<>> >>],
   [n |-> 4, inc |-> << <<2, 3, 4>>, <<>>, <<>>, <<>> >>],
-  [n |-> 4, inc |-> << <<2>>, <<3, 4>>, <<>>, <<>> >>] >>
+  [n |-> 4, inc |-> << <<2>>, <<3, 4>>, <<>>, <<>> >>],
+  \* a file reached along two paths is still one member of the tree (its figures count once)
+  [n |-> 4, inc |-> << <<2, 3>>, <<4>>, <<4>>, <<>> >>],
+  [n |-> 3, inc |-> << <<3, 2>>, <<3>>, <<>> >>] >>
 
 RECURSIVE TreeOf(_, _)
 TreeOf(sh, i) == {i} \cup UNION { TreeOf(sh, sh.inc[i][k]) : k \in 1..Len(sh.inc[i]) }
@@ -57,7 +61,7 @@ WCmt(x) == IF Coin(3, x) THEN [free |-> Pick(1..Len(FreeTexts)), tags |-> <<>>]
 WPost(x, mayOmit) ==
     LET hasAmt  == ~(mayOmit /\ Coin(2, x))
         hasCost == hasAmt /\ Coin(6, x)
-        hasAsrt == hasAmt /\ Coin(8, x)
+        hasAsrt == IF hasAmt THEN Coin(8, x) ELSE Coin(4, x)
     IN [ind |-> Pick({2, 4, 4, 4}), st |-> Pick({"", "", "", "", "*", "!"}), kind |-> Pick({"real", "real", "real", "real", "paren", "bracket"}),
         acct |-> Pick(WAccounts), gap |-> Pick({2, 2, 3, 6}),
         amt  |-> IF hasAmt THEN <<RandAmtIn(x, ValuesW, WComms)>> ELSE <<>>,
@@ -116,6 +120,16 @@ Tables(absOf, S) ==
          tagvalue |-> { [name |-> nv[1], value |-> nv[2], n |-> Count(tags, LAMBDA t : t = nv)] : nv \in Range(tags) },
          ntx      |-> Len(txs) ]
 
+(* ---- occurrences of symbols (C09) --------------------------------------------------------------
+   every lexeme that spells an account, a commodity or a payee, with its exact UTF-16 span; decl = it
+   is the name written in an `account` / `commodity` directive *)
+SymName(x) == IF x.k = "commodity" /\ Len(x.t) >= 2 /\ SubSeq(x.t, 1, 1) = "\"" THEN SubSeq(x.t, 2, Len(x.t) - 1) ELSE x.t
+OccsOfFile(ren) ==
+    UNION { { [line |-> l, c0 |-> ren.lex[l][x].c0, c1 |-> ren.lex[l][x].c1, k |-> ren.lex[l][x].k, name |-> SymName(ren.lex[l][x]),
+               quoted |-> (SymName(ren.lex[l][x]) # ren.lex[l][x].t),
+               decl |-> (ren.pmap[l][1] > 0 /\ ren.abs[ren.pmap[l][1]].type \in {"account", "commodity"})] :
+                 x \in { y \in 1..Len(ren.lex[l]) : ren.lex[l][y].k \in {"account", "commodity", "payee"} } } : l \in 1..Len(ren.lex) }
+
 (* ---- the one-step behaviour TLC simulates ------------------------------------------------------ *)
 VARIABLES cas, stg
 vars == <<cas, stg>>
@@ -131,7 +145,7 @@ WCase(ch) ==
         ren == [i \in 1..sh.n |-> Rendered(ch.es[i])]
         absOf == [i \in 1..sh.n |-> ren[i].abs]
     IN [ files  |-> [i \in 1..sh.n |-> [name |-> FileNames[i], lines |-> ren[i].lines, lex |-> ren[i].lex, firsts |-> ren[i].firsts, pmap |-> ren[i].pmap,
-                                          abs |-> ren[i].abs, inc |-> sh.inc[i], tree |-> TreeOf(sh, i)]],
+                                          abs |-> ren[i].abs, inc |-> sh.inc[i], tree |-> TreeOf(sh, i), occ |-> OccsOfFile(ren[i])]],
          tables |-> [i \in 1..sh.n |-> Tables(absOf, TreeOf(sh, i))] ]
 
 Init == cas = <<>> /\ stg = 0
